@@ -179,6 +179,7 @@ func extraAlphabet() []Choice {
 		{Label: "evidence(k0)+evidence(k1)", Block: chain.Block{Evidence: []chain.Evidence{{Val: 0, HeightAgo: 1, Age: time.Second}, {Val: 1, HeightAgo: 1, Age: time.Second}}}},
 		{Label: "prop=unknown", Block: chain.Block{Proposer: -1}},
 		// award recipients whose address is not 20 bytes long
+		evB("award(empty address,5)", chain.Event{Kind: "award", Who: chain.EmptyIndex, Amount: 5}),
 		evB("award(19-byte address,7)", chain.Event{Kind: "award", Who: 2000 + 3, Amount: 7}),
 		multiB("[award(23-byte,7),award(24-byte same first 20,11)]", chain.Event{Kind: "award", Who: 6000 + 3, Amount: 7}, chain.Event{Kind: "award", Who: 7000 + 3, Amount: 11}),
 		// slashes whose token amount truncates to zero
@@ -257,6 +258,8 @@ func rewardAlphabet() []Choice {
 		evB("award(k3,0)", chain.Event{Kind: "award", Who: 3, Amount: 0}),
 		txB("send(k3->pos module account,1000)", chain.TxSpec{Msg: "send_module", From: 3, Key: "pos", Amount: 1000}),
 		txB("send(k3->fee collector,1000)", chain.TxSpec{Msg: "send_module", From: 3, Key: "fee_collector", Amount: 1000}),
+		// an award to the zero-length address
+		evB("award(empty address,5)", chain.Event{Kind: "award", Who: chain.EmptyIndex, Amount: 5}),
 		// two awards to one address whose sum passes 2^63
 		multiB("[award(k3,2^63-1),award(k3,1)]", chain.Event{Kind: "award", Who: 3, Amount: 1<<63 - 1}, chain.Event{Kind: "award", Who: 3, Amount: 1}),
 		// awards queued in the block whose EndBlock completes the recipient's unstaking
